@@ -641,7 +641,7 @@ where
         if index >= self.len {
             return None;
         }
-        let wrapped_index = index % self.max_len();
+        let wrapped_index = (self.start + index) % self.max_len();
         unsafe { Some(self.data.slice().get_unchecked(wrapped_index) as &_) }
     }
 
@@ -656,7 +656,7 @@ where
         if index >= self.len {
             return None;
         }
-        let wrapped_index = index % self.max_len();
+        let wrapped_index = (self.start + index) % self.max_len();
         unsafe { Some(self.data.slice_mut().get_unchecked_mut(wrapped_index) as &mut _) }
     }
 
